@@ -767,4 +767,334 @@ theorem stable_change_has {V : Verifier} {P : Nat → Blk → Prop} (hv : VOK V 
     rw [hn', hd'] at m
     exact m
 
+
+/-! ## the code as it is: signatures are distinct as BYTE STRINGS only -/
+
+/-- what `VerifyNewConfirms` + `IsConfirmExist` + `appendConfirm` really guarantee for a stored block:
+    header signature and confirms are pairwise different byte strings, every confirm recovers to a
+    deputy, the header signature recovers to the miner. Nothing about distinct SIGNERS. -/
+structure SigsOK (n : Nat) (b : Blk) : Prop where
+  nodup : (b.hdr :: b.confirms).Nodup
+  deputies : ∀ s ∈ b.confirms, ∃ d, recover s = some d ∧ d < n
+  hdr : recover b.hdr = some b.miner ∧ b.miner < n
+
+def AccOK (n : Nat) (b : Blk) (valid : List Sig) : Prop :=
+  valid.Nodup ∧ ∀ s ∈ valid, (∃ d, recover s = some d ∧ d < n) ∧ isConfirmExist b s = false
+
+theorem verifyLoop_acc (n : Nat) (b : Blk) : ∀ (sigs valid : List Sig) (e : CErr),
+    AccOK n b valid → AccOK n b (verifyLoop n b sigs valid e).1
+  | [], _, _, h => h
+  | s :: rest, valid, e, h => by
+    simp only [verifyLoop]
+    split
+    · exact verifyLoop_acc n b rest valid _ h
+    · rename_i hnot
+      split
+      · exact verifyLoop_acc n b rest valid _ h
+      · rename_i d hd
+        split
+        · exact verifyLoop_acc n b rest valid _ h
+        · rename_i hdn
+          split
+          · exact verifyLoop_acc n b rest valid _ h
+          · rename_i hex
+            apply verifyLoop_acc n b rest (valid ++ [s]) e
+            refine ⟨List.nodup_append.2 ⟨h.1, List.nodup_cons.2 ⟨by simp, List.nodup_nil⟩, ?_⟩, ?_⟩
+            · intro a ha c hc hac
+              rw [List.mem_singleton] at hc
+              exact hnot (hc ▸ hac ▸ ha)
+            · intro x hx
+              rcases List.mem_append.1 hx with hx | hx
+              · exact h.2 x hx
+              · rw [List.mem_singleton] at hx
+                subst hx
+                exact ⟨⟨d, hd, Decidable.not_not.1 hdn⟩, by simpa using hex⟩
+
+theorem isConfirmExist_false {b : Blk} {s : Sig} (h : isConfirmExist b s = false) : b.hdr ≠ s ∧ s ∉ b.confirms := by
+  unfold isConfirmExist at h
+  simp only [Bool.or_eq_false_iff, decide_eq_false_iff_not] at h
+  exact h
+
+theorem appendConfirm_sigsOK (n : Nat) : ∀ (valid : List Sig) (b : Blk), SigsOK n b →
+    (∀ s ∈ valid, ∃ d, recover s = some d ∧ d < n) → SigsOK n (appendConfirm b valid)
+  | [], _, h, _ => h
+  | s :: rest, b, h, hv => by
+    simp only [appendConfirm]
+    have hrest : ∀ x ∈ rest, ∃ d, recover x = some d ∧ d < n := fun x hx => hv x (List.mem_cons_of_mem _ hx)
+    split
+    · exact appendConfirm_sigsOK n rest b h hrest
+    · rename_i hex
+      obtain ⟨h1, h2⟩ := isConfirmExist_false (by simpa using hex)
+      apply appendConfirm_sigsOK n rest _ _ hrest
+      have hnd := List.nodup_cons.1 h.nodup
+      refine ⟨?_, ?_, h.hdr⟩
+      · show (b.hdr :: (b.confirms ++ [s])).Nodup
+        refine List.nodup_cons.2 ⟨?_, List.nodup_append.2 ⟨hnd.2, List.nodup_cons.2 ⟨by simp, List.nodup_nil⟩, ?_⟩⟩
+        · intro hm
+          rcases List.mem_append.1 hm with hm | hm
+          · exact hnd.1 hm
+          · rw [List.mem_singleton] at hm; exact h1 hm
+        · intro a ha c hc hac
+          rw [List.mem_singleton] at hc
+          exact h2 (hc ▸ hac ▸ ha)
+      · intro x hx
+        have hx' : x ∈ b.confirms ++ [s] := hx
+        rcases List.mem_append.1 hx' with hx' | hx'
+        · exact h.deputies x hx'
+        · rw [List.mem_singleton] at hx'; subst hx'; exact hv x List.mem_cons_self
+
+theorem accOK_nil (n : Nat) (b : Blk) : AccOK n b [] := ⟨List.nodup_nil, fun _ h => by cases h⟩
+
+theorem vok_faithful : VOK verifyNewConfirms SigsOK where
+  fresh := by
+    intro n b h1 h2
+    have hacc := verifyLoop_acc n { b with confirms := [] } b.confirms [] .none (accOK_nil n _)
+    refine ⟨?_, ?_, ⟨h1, h2⟩⟩
+    · show (b.hdr :: (verifyNewConfirms n { b with confirms := [] } b.confirms).1).Nodup
+      refine List.nodup_cons.2 ⟨?_, hacc.1⟩
+      intro hm
+      exact (isConfirmExist_false (hacc.2 _ hm).2).1 rfl
+    · intro s hs
+      exact (hacc.2 s hs).1
+  append := by
+    intro n b sigs h
+    have hacc := verifyLoop_acc n b sigs [] .none (accOK_nil n b)
+    exact appendConfirm_sigsOK n _ b h (fun s hs => (hacc.2 s hs).1)
+
+/-- REFUTATION of the full statement `quorum_distinct` on the faithful model, 3 deputies:
+    block 1 (miner = deputy 0, canonical header signature `⟨0,0⟩`) arrives, then ONE confirmation
+    packet holding the re-encoding `⟨0,1⟩` of the miner's own signature. The stable pointer moves to
+    block 1 although one deputy out of three signed it (need 2). Anybody can forge that packet. -/
+theorem quorum_distinct_refuted :
+    ∃ (dc n g : Nat) (ops : List Op) (op : Op),
+      let s := run verifyNewConfirms (init dc n g) ops
+      let s' := (step verifyNewConfirms s op).1
+      s'.stable.id ≠ s.stable.id ∧ distinctCount n s'.stable < twoThirds n :=
+  ⟨3, 3, 0, [.block ⟨1, 0, 1, 0, 1, ⟨some 0, 0⟩, []⟩ true], .confirms 1 1 [⟨some 0, 1⟩], by decide⟩
+
+/-- the same through a block that CARRIES the forged confirmation: one operation. -/
+theorem quorum_distinct_refuted_carried :
+    let s := init 3 3 0
+    let s' := (step verifyNewConfirms s (.block ⟨1, 0, 1, 0, 1, ⟨some 0, 0⟩, [⟨some 0, 1⟩]⟩ true)).1
+    s'.stable.id = 1 ∧ distinctCount 3 s'.stable = 1 ∧ twoThirds 3 = 2 := by decide
+
+/-- a deputy other than the miner doubling its own vote (needs that deputy's key: another nonce). -/
+theorem quorum_distinct_refuted_resigned :
+    let s := run verifyNewConfirms (init 4 4 0) [.block ⟨1, 0, 1, 0, 1, ⟨some 0, 0⟩, []⟩ true]
+    let s' := (step verifyNewConfirms s (.confirms 1 1 [⟨some 2, 0⟩, ⟨some 2, 7⟩])).1
+    s'.stable.id = 1 ∧ distinctCount 4 s'.stable = 2 ∧ twoThirds 4 = 3 := by decide
+
+theorem signersOf_nodup_of_inj {n : Nat} {b : Blk} (h : SigsOK n b)
+    (hinj : ∀ a ∈ b.hdr :: b.confirms, ∀ c ∈ b.hdr :: b.confirms, recover a = recover c → a = c) :
+    (signersOf b).Nodup ∧ (∀ d ∈ signersOf b, d < n) ∧ (signersOf b).length = b.confirms.length + 1 := by
+  have hall : ∀ s ∈ b.hdr :: b.confirms, ∃ d, recover s = some d ∧ d < n := by
+    intro s hs
+    rcases List.mem_cons.1 hs with rfl | hs
+    · exact ⟨b.miner, h.hdr.1, h.hdr.2⟩
+    · exact h.deputies s hs
+  -- signersOf b is the image of the signature list under `recover`
+  have himg : ∀ (l : List Sig), l.Nodup → (∀ s ∈ l, ∃ d, recover s = some d ∧ d < n) →
+      (∀ a ∈ l, ∀ c ∈ l, recover a = recover c → a = c) →
+      (l.filterMap recover).Nodup ∧ (∀ d ∈ l.filterMap recover, d < n) := by
+    intro l
+    induction l with
+    | nil => intro _ _ _; exact ⟨List.nodup_nil, fun _ hd => by cases hd⟩
+    | cons s rest ih =>
+      intro hnd hdep hi
+      obtain ⟨d, hd, hdn⟩ := hdep s List.mem_cons_self
+      have hnd' := List.nodup_cons.1 hnd
+      obtain ⟨ih1, ih2⟩ := ih hnd'.2 (fun x hx => hdep x (List.mem_cons_of_mem _ hx))
+        (fun a ha c hc => hi a (List.mem_cons_of_mem _ ha) c (List.mem_cons_of_mem _ hc))
+      rw [List.filterMap_cons_some hd]
+      refine ⟨List.nodup_cons.2 ⟨?_, ih1⟩, ?_⟩
+      · intro hm
+        rcases List.mem_filterMap.1 hm with ⟨x, hx, hxd⟩
+        have : s = x := hi s List.mem_cons_self x (List.mem_cons_of_mem _ hx) (hd.trans hxd.symm)
+        exact hnd'.1 (this ▸ hx)
+      · intro e he
+        rcases List.mem_cons.1 he with rfl | he
+        · exact hdn
+        · exact ih2 e he
+  have h0 := himg (b.hdr :: b.confirms) h.nodup hall hinj
+  have e : (b.hdr :: b.confirms).filterMap recover = signersOf b := by
+    rw [List.filterMap_cons_some h.hdr.1]; rfl
+  rw [e] at h0
+  refine ⟨h0.1, h0.2, ?_⟩
+  unfold signersOf
+  rw [List.length_cons, filterMap_recover_length (fun s hs => (h.deputies s hs).imp fun _ hd => hd.1)]
+
+theorem enough_le {dc n : Nat} {b : Blk} (hn : n ≤ dc) (h : isConfirmEnough dc n b = true) :
+    twoThirds n ≤ b.confirms.length + 1 := by
+  unfold isConfirmEnough at h
+  simp only [Bool.or_eq_true, decide_eq_true_eq] at h
+  have := twoThirds_mono hn
+  omega
+
+/-- PARTIAL theorem for the code as it is. Whenever the stable pointer moves to a block `b`, IF the
+    signatures stored for `b` (header + confirms) recover to pairwise different nodes — the exact
+    guard: no node, the miner included, is represented by two different byte strings — THEN at least
+    ⌈2n/3⌉ distinct deputies, miner included, signed `b`.
+    (`n ≤ dc`: a term never has more deputies than the configured maximum, `TermRecord.GetDeputies`.) -/
+theorem quorum_distinct_partial (dc n g : Nat) (hn : n ≤ dc) (ops : List Op) (op : Op) :
+    let s := run verifyNewConfirms (init dc n g) ops
+    let s' := (step verifyNewConfirms s op).1
+    s'.stable.id ≠ s.stable.id →
+    (∀ a ∈ s'.stable.hdr :: s'.stable.confirms, ∀ c ∈ s'.stable.hdr :: s'.stable.confirms, recover a = recover c → a = c) →
+    twoThirds n ≤ distinctCount n s'.stable := by
+  intro s s' hne hinj
+  obtain ⟨hs, hen⟩ := stable_change_has vok_faithful dc n g ops op hne
+  obtain ⟨h1, h2, h3⟩ := signersOf_nodup_of_inj hs hinj
+  have h4 := length_le_distinctCount h1 h2
+  have h5 := enough_le hn hen
+  exact Nat.le_trans h5 (by rw [← h3]; exact h4)
+
+/-- what always holds on the code as it is: the quorum is a quorum of distinct SIGNATURES by deputies. -/
+theorem quorum_signatures (dc n g : Nat) (hn : n ≤ dc) (ops : List Op) (op : Op) :
+    let s := run verifyNewConfirms (init dc n g) ops
+    let s' := (step verifyNewConfirms s op).1
+    s'.stable.id ≠ s.stable.id →
+    SigsOK n s'.stable ∧ twoThirds n ≤ (s'.stable.hdr :: s'.stable.confirms).length := by
+  intro s s' hne
+  obtain ⟨hs, hen⟩ := stable_change_has vok_faithful dc n g ops op hne
+  exact ⟨hs, by rw [List.length_cons]; exact enough_le hn hen⟩
+
+/-! ## the repair: de-duplicate by recovered node, the miner included -/
+
+structure NodeOK (n : Nat) (b : Blk) : Prop where
+  nodup : (signersOf b).Nodup
+  deputies : ∀ s ∈ b.confirms, ∃ d, recover s = some d ∧ d < n
+  hdr : recover b.hdr = some b.miner ∧ b.miner < n
+
+def AccF (n : Nat) (b : Blk) (valid : List Sig) : Prop :=
+  (signersOf b ++ valid.filterMap recover).Nodup ∧ ∀ s ∈ valid, ∃ d, recover s = some d ∧ d < n
+
+theorem filterMap_append_singleton {l : List Sig} {s : Sig} {d : Nat} (hd : recover s = some d) :
+    (l ++ [s]).filterMap recover = l.filterMap recover ++ [d] := by
+  rw [List.filterMap_append, List.filterMap_cons_some hd, List.filterMap_nil]
+
+theorem verifyLoopFixed_acc (n : Nat) (b : Blk) (hh : recover b.hdr = some b.miner) :
+    ∀ (sigs valid : List Sig) (e : CErr), AccF n b valid → AccF n b (verifyLoopFixed n b sigs valid e).1
+  | [], _, _, h => h
+  | s :: rest, valid, e, h => by
+    simp only [verifyLoopFixed]
+    split
+    · exact verifyLoopFixed_acc n b hh rest valid _ h
+    · rename_i d hd
+      split
+      · exact verifyLoopFixed_acc n b hh rest valid _ h
+      · rename_i hdn
+        split
+        · exact verifyLoopFixed_acc n b hh rest valid _ h
+        · rename_i hnew
+          apply verifyLoopFixed_acc n b hh rest (valid ++ [s]) e
+          have hn1 : ¬ recover b.hdr = some d := fun x => hnew (Or.inl x)
+          have hn2 : d ∉ b.confirms.filterMap recover := fun x => hnew (Or.inr (Or.inl x))
+          have hn3 : d ∉ valid.filterMap recover := fun x => hnew (Or.inr (Or.inr x))
+          refine ⟨?_, ?_⟩
+          · rw [filterMap_append_singleton hd, ← List.append_assoc]
+            refine List.nodup_append.2 ⟨h.1, List.nodup_cons.2 ⟨by simp, List.nodup_nil⟩, ?_⟩
+            intro a ha c hc hac
+            rw [List.mem_singleton] at hc
+            subst hc; subst hac
+            rcases List.mem_append.1 ha with ha | ha
+            · rcases List.mem_cons.1 ha with ha | ha
+              · exact hn1 (by rw [hh, ha])
+              · exact hn2 ha
+            · exact hn3 ha
+          · intro x hx
+            rcases List.mem_append.1 hx with hx | hx
+            · exact h.2 x hx
+            · rw [List.mem_singleton] at hx; subst hx; exact ⟨d, hd, Decidable.not_not.1 hdn⟩
+
+theorem appendConfirm_nodeOK (n : Nat) : ∀ (valid : List Sig) (b : Blk), NodeOK n b →
+    (signersOf b ++ valid.filterMap recover).Nodup → (∀ s ∈ valid, ∃ d, recover s = some d ∧ d < n) →
+    NodeOK n (appendConfirm b valid)
+  | [], _, h, _, _ => h
+  | s :: rest, b, h, hnd, hv => by
+    simp only [appendConfirm]
+    obtain ⟨d, hd, hdn⟩ := hv s List.mem_cons_self
+    have hrest : ∀ x ∈ rest, ∃ d, recover x = some d ∧ d < n := fun x hx => hv x (List.mem_cons_of_mem _ hx)
+    rw [List.filterMap_cons_some hd] at hnd
+    split
+    · apply appendConfirm_nodeOK n rest b h _ hrest
+      exact hnd.sublist (List.Sublist.append_left (List.sublist_cons_self _ _) _)
+    · have e1 : signersOf { b with confirms := b.confirms ++ [s] } = signersOf b ++ [d] := by
+        unfold signersOf
+        show b.miner :: (b.confirms ++ [s]).filterMap recover = _
+        rw [filterMap_append_singleton hd]; rfl
+      have hnd' : ((signersOf b ++ [d]) ++ rest.filterMap recover).Nodup := by
+        rw [List.append_assoc]; exact hnd
+      apply appendConfirm_nodeOK n rest _ _ (by rw [e1]; exact hnd') hrest
+      refine ⟨?_, ?_, h.hdr⟩
+      · rw [e1]; exact hnd'.sublist (List.sublist_append_left _ _)
+      · intro x hx
+        have hx' : x ∈ b.confirms ++ [s] := hx
+        rcases List.mem_append.1 hx' with hx' | hx'
+        · exact h.deputies x hx'
+        · rw [List.mem_singleton] at hx'; subst hx'; exact ⟨d, hd, hdn⟩
+
+theorem vok_fixed : VOK verifyNewConfirmsFixed NodeOK where
+  fresh := by
+    intro n b h1 h2
+    have h0 : AccF n { b with confirms := [] } [] := by
+      refine ⟨?_, fun _ h => by cases h⟩
+      show ([b.miner] ++ []).Nodup
+      simp
+    have hacc := verifyLoopFixed_acc n { b with confirms := [] } h1 b.confirms [] .none h0
+    refine ⟨?_, hacc.2, ⟨h1, h2⟩⟩
+    have := hacc.1
+    exact this
+  append := by
+    intro n b sigs h
+    have h0 : AccF n b [] := ⟨by rw [List.filterMap_nil, List.append_nil]; exact h.nodup, fun _ hx => by cases hx⟩
+    have hacc := verifyLoopFixed_acc n b h.hdr.1 sigs [] .none h0
+    exact appendConfirm_nodeOK n _ b h hacc.1 hacc.2
+
+/-- FULL theorem for the repaired verifier (`verifyNewConfirmsFixed`: a confirmation is new only if
+    its RECOVERED NODE is neither the miner nor the signer of a confirmation already held): whenever
+    the stable pointer moves to a block, at least ⌈2n/3⌉ DISTINCT deputies, miner included, signed it —
+    for every deputy count, block tree, confirmation multiset (re-encodings and re-signings included)
+    and arrival order. -/
+theorem quorum_distinct_fixed (dc n g : Nat) (hn : n ≤ dc) (ops : List Op) (op : Op) :
+    let s := run verifyNewConfirmsFixed (init dc n g) ops
+    let s' := (step verifyNewConfirmsFixed s op).1
+    s'.stable.id ≠ s.stable.id → twoThirds n ≤ distinctCount n s'.stable := by
+  intro s s' hne
+  obtain ⟨hs, hen⟩ := stable_change_has vok_fixed dc n g ops op hne
+  have hlt : ∀ d ∈ signersOf s'.stable, d < n := by
+    intro d hd
+    rcases List.mem_cons.1 hd with rfl | hd
+    · exact hs.hdr.2
+    · rcases List.mem_filterMap.1 hd with ⟨x, hx, hxd⟩
+      obtain ⟨d', hd', hlt'⟩ := hs.deputies x hx
+      rw [hd'] at hxd; cases hxd; exact hlt'
+  have h1 := length_le_distinctCount hs.nodup hlt
+  have h3 : (signersOf s'.stable).length = s'.stable.confirms.length + 1 := by
+    unfold signersOf
+    rw [List.length_cons, filterMap_recover_length (fun s hs' => (hs.deputies s hs').imp fun _ hd => hd.1)]
+  have h5 := enough_le hn hen
+  exact Nat.le_trans h5 (by rw [← h3]; exact h1)
+
+/-- the repaired verifier refuses the forged packet of `quorum_distinct_refuted`. -/
+example :
+    let s := run verifyNewConfirmsFixed (init 3 3 0) [.block ⟨1, 0, 1, 0, 1, ⟨some 0, 0⟩, []⟩ true]
+    (step verifyNewConfirmsFixed s (.confirms 1 1 [⟨some 0, 1⟩])).2 = "ErrExistedConfirm" ∧
+    (step verifyNewConfirmsFixed s (.confirms 1 1 [⟨some 0, 1⟩])).1.stable.id = 0 := by decide
+
+/-- non-vacuity: with honest signatures the stable pointer does move (2 of 3 deputies), the head
+    follows, and the guard of `quorum_distinct_partial` is satisfiable. -/
+example :
+    let s := run verifyNewConfirms (init 3 3 0) [.block ⟨1, 0, 1, 0, 1, ⟨some 0, 0⟩, []⟩ true]
+    let s' := (step verifyNewConfirms s (.confirms 1 1 [⟨some 1, 0⟩])).1
+    s'.stable.id = 1 ∧ s'.headId = 1 ∧ distinctCount 3 s'.stable = 2 := by decide
+
+/-- non-vacuity of the fork machinery: a fork is pruned when its sibling becomes stable and the head
+    moves over to the surviving branch. -/
+example :
+    let s := run verifyNewConfirms (init 3 3 0)
+      [.block ⟨1, 0, 1, 0, 5, ⟨some 0, 0⟩, []⟩ true, .block ⟨2, 0, 1, 1, 3, ⟨some 1, 0⟩, []⟩ true,
+       .block ⟨3, 1, 2, 1, 4, ⟨some 1, 0⟩, []⟩ true]
+    let s' := (step verifyNewConfirms s (.confirms 2 1 [⟨some 2, 0⟩])).1
+    s.headId = 3 ∧ s'.stable.id = 2 ∧ s'.headId = 2 ∧ s'.tree = [] := by decide
+
 end LemoProofs.C03
